@@ -1,5 +1,7 @@
 import ClipVerif.Proofs.C06
 import ClipVerif.Facts.Tables
+import ClipVerif.Model.RectLine
+import ClipVerif.Proofs.Rect
 /-
 C11 — rectangle clipping of lines.  Proved: the line clipper dispatches to its own line state
 machine (a fact about the regenerated method table: before the repair `RectClipLines64` had no
@@ -7,6 +9,7 @@ machine (a fact about the regenerated method table: before the repair `RectClipL
 C06 (Props/C06).  The line state machine itself is explored by the search with the 1-D coverage oracle.
 -/
 namespace C11
+open Gen
 
 /-- `RectClipLines64` declares its own `Execute` -/
 theorem linesExecute_uses_line_machine :
@@ -17,5 +20,32 @@ theorem linesExecute_uses_line_machine :
 theorem line_machine_exists :
     ∃ ms, ("RectClip64", ms) ∈ Facts.ownMethods ∧ "executeInternalPath64" ∈ ms ∧ "executeInternal" ∈ ms := by
   exact ⟨["Execute", "add", "addCorner", "addCornerLocation", "checkEdges", "executeInternal", "executeInternalPath64", "getNextLocation", "path1ContainsPath2", "tidyEdgePair"], by decide⟩
+
+/-! ### The line machine (model `Model.RectLine` of `executeInternalPath64`, tied by `models-corr rectline`) -/
+
+/-- where a result point can come from: an input vertex lying in the closed rectangle, or the point
+    `getSegmentIntersection` returned for an input edge and one side of the rectangle -/
+def LineProvenance (rect : Rect64) (path : Array Point64) (q : Point64) : Prop :=
+  (q ∈ path.toList ∧ rect.left ≤ q.X ∧ q.X ≤ rect.right ∧ rect.top ≤ q.Y ∧ q.Y ≤ rect.bottom) ∨
+  (∃ a ∈ path.toList, ∃ b ∈ path.toList, ∃ c ∈ Rect64_AsPath rect, ∃ d ∈ Rect64_AsPath rect,
+    (getSegmentIntersection a b c d).2 = true ∧ q = (getSegmentIntersection a b c d).1)
+
+/-- every point of every result path of the line machine has such a provenance: nothing else is
+    ever emitted (no vertex outside the rectangle, no invented point) -/
+theorem executeLine_provenance (rect : Rect64) (path : Array Point64)
+    (hw : rect.left < rect.right ∧ rect.top < rect.bottom) :
+    ∀ ring ∈ Model.executeLine rect path, ∀ q ∈ ring, LineProvenance rect path q := by
+  exact Proofs.Rect.executeLine_prov rect path hw
+
+/-- no result path repeats a point consecutively -/
+theorem executeLine_no_adjacent_duplicates (rect : Rect64) (path : Array Point64) :
+    ∀ ring ∈ Model.executeLine rect path, ∀ i, i + 1 < ring.length → ring[i]! ≠ ring[i + 1]! := by
+  exact Proofs.Rect.executeLine_noAdj rect path
+
+/-- `RectClipLines64.Execute` returns only paths of at least two points -/
+theorem rectClipLines_min_two (rect : Rect64) (paths : List (List Point64)) :
+    ∀ q ∈ Model.rectClipLines rect paths, 2 ≤ q.length := by
+  exact Proofs.Rect.rectClipLines_min_two rect paths
+
 
 end C11
